@@ -6,8 +6,11 @@
 (* level header and the binary files as flat sequences of UNITS), the      *)
 (* corruptions applied so far, the options, and the validator's progress.  *)
 (*                                                                         *)
-(* A unit is  [k |-> "H", idx, nc, canon]  -- one whole FAB header line    *)
-(*   (canon = byte-identical to the canonical header text), or             *)
+(* A unit is  [k |-> "H", idx, nc, canon, sh]  -- one whole FAB header     *)
+(*   line (canon = byte-identical to the canonical header text; sh = -1 /  *)
+(*   +1: a few bytes were cut from / put in front of the line, so that     *)
+(*   everything behind it in the file is displaced by less than a unit     *)
+(*   against the recorded byte positions), or                              *)
 (*            [k |-> "D"]                  -- one unit of payload bytes.   *)
 (* A FAB of a box with `c` cells and `n` components is H followed by c*n D.*)
 (* Byte offsets are 0-based unit positions.                                *)
@@ -37,7 +40,7 @@ ClassPattern == <<1, 2, 1, 2>>
 CellsOfIdx(i) == IF i = 91 THEN 2 ELSE IF i = 92 THEN 3 ELSE ClassPattern[i] + 1
 ForeignIdx == {91, 92}
 
-H(idx, nc) == [k |-> "H", idx |-> idx, nc |-> nc, canon |-> TRUE]
+H(idx, nc) == [k |-> "H", idx |-> idx, nc |-> nc, canon |-> TRUE, sh |-> 0]
 D == [k |-> "D"]
 RECURSIVE Rep(_, _)
 Rep(x, n) == IF n = 0 THEN <<>> ELSE <<x>> \o Rep(x, n - 1)
@@ -77,7 +80,9 @@ CellHParses(L) ==
 
 RefFiles(L) == {L.fodlines[b].file : b \in DOMAIN L.fodlines}
 BoxesIn(L, f) == {b \in DOMAIN L.fodlines : L.fodlines[b].file = f}
-Norm(units) == [i \in DOMAIN units |-> IF units[i].k = "H" THEN [k |-> "H", idx |-> units[i].idx, nc |-> units[i].nc]
+\* what counts for the layout: index range, component count and LENGTH of every header (blanks re-recorded in the
+\* level header are not damage; bytes cut from or put in front of a header line displace the rest of the file)
+Norm(units) == [i \in DOMAIN units |-> IF units[i].k = "H" THEN [k |-> "H", idx |-> units[i].idx, nc |-> units[i].nc, sh |-> units[i].sh]
                                                          ELSE units[i]]
 
 \* the file is exactly the FABs of the boxes that reference it, in some order, each at its recorded offset
@@ -95,6 +100,10 @@ BoundsDamaged(P, lim) == \E l \in 1..(lim + 1) : \E b \in DOMAIN P[l].bounds_ok 
 \* what a reader gets for box b: the header found at the recorded position and whether the
 \* payload that follows is complete
 UnitAt(units, off) == IF off >= 0 /\ off < Len(units) THEN units[off + 1] ELSE [k |-> "none"]
+\* displacement (in header-edit lengths) of unit position `off` against its recorded byte position
+RECURSIVE DispTo(_, _)
+DispTo(units, n) == IF n = 0 THEN 0 ELSE (IF units[n].k = "H" THEN units[n].sh ELSE 0) + DispTo(units, n - 1)
+Disp(units, off) == DispTo(units, IF off < Len(units) THEN off ELSE Len(units))
 ReadBoxOK(L, b) ==
   LET fl == L.fodlines[b] IN
   /\ fl.file \in DOMAIN L.files /\ fl.file \notin L.gone
@@ -145,8 +154,11 @@ ImplHeadersFileP(L, f, sortOffsets) ==
   IF f \notin DOMAIN L.files \/ f \in L.gone THEN "exception"
   ELSE LET u == L.files[f]
            bs == SortedBoxesP(L, f, sortOffsets)
+           \* seek(recorded offset); readline; parse the LAST four tokens of the line.  When the file is displaced towards its
+           \* start (bytes cut from an earlier header) the seek lands a few bytes inside the header line, whose tail still
+           \* parses; displaced the other way it lands in the payload in front of the header: garbage
            r(b) == LET h == UnitAt(u, L.fodlines[b].off)
-                   IN IF h.k # "H" THEN "exception"
+                   IN IF h.k # "H" \/ Disp(u, L.fodlines[b].off) > 0 THEN "exception"
                       ELSE IF h.idx # L.boxlines[b].idx \/ h.nc # NF THEN "error" ELSE "ok"
            \* the first non-ok box in visiting order decides
            bad == {i \in DOMAIN bs : r(bs[i]) # "ok"}
